@@ -31,6 +31,15 @@ Theorem C09_dead_session : forall progs buf pend sched,
 Proof. exact (fun progs buf pend sched => dead_session_released sched progs buf pend). Qed.
 Print Assumptions C09_dead_session.
 
+(* 3b. ... and every task that holds a stream handle has that stream's inbound queue closed: its reads
+       return what was already queued and then end-of-stream; they never park *)
+Theorem C09_readers_released : forall progs buf pend sched,
+  let s := run (init progs buf pend) sched in
+  closed s = true -> quiescent_close s ->
+  forall u sid, t_sid (tasks s u) = Some sid -> t_rclosed (tasks s u) = true.
+Proof. exact (fun progs buf pend sched => dead_session_readers sched progs buf pend). Qed.
+Print Assumptions C09_readers_released.
+
 (* 4. the drain step of close() releases every registered stream: its reader's queue is closed (EOF after the
       data already queued) and its pending open is resolved (with an error if it was still pending) *)
 Theorem C09_drain_releases : forall s t a k s',
